@@ -129,6 +129,12 @@ def pinv(ctx, rule="R06.3"):
 
 
 def run(ctx):
+    from . import C15_kernels as _K
+
+    _K.accumulator_reset(ctx, rule="R06.9")  # variance sum kernel: same loop-shape obligations as C15 / C05
+    _K.full_extent(ctx, rule="R06.9")
+    _K.zero_init(ctx, rule="R06.9")
+    _K.branch_free_krige_sums(ctx, rule="R06.9")
     from .C12 import swap_lint
     from .C18 import mirror_pipelines
 
